@@ -20,6 +20,8 @@ for d in sorted(glob.glob(os.path.join(os.path.dirname(os.path.dirname(os.path.a
     jobs = sorted(jobs)
     rep = [r for r in det.get("replays", []) if r.get("native_replay_reproduced")]
     status = "**caught**" if det.get("detected") else ("missed" if det else "not run")
+    if m["id"].startswith("H"):
+        status = "FALSE ALARM" if det.get("detected") else ("silent, exit 0 (as required; run against C01's check)" if det else "not run")
     rows.append("| `%s` | %s | %s | %s%s | %s |" % (m["id"], m["change"][:110], m["needs_to_manifest"][:110], status,
                                                 (" (replayed natively)" if rep else ""), "; ".join(sorted(set(obl))[:2]) + (" — jobs: " + ", ".join(jobs[:4]) if jobs else "")))
 print("| change | what it does | needs | quick check of its property | first failing obligations |")
